@@ -225,7 +225,7 @@ func (i *importer) importAttributes(dbcAtts []*dbc.Attribute, dbcAttDefs []*dbc.
 
 				strVal, err := enumAtt.GetValueAtIndex(dbcAttVal.ValueInt)
 				if err != nil {
-					i.errorf(dbcAttVal, err)
+					return i.errorf(dbcAttVal, err)
 				}
 				value = strVal
 
